@@ -52,6 +52,10 @@ def run(ctx):
     ctx.do(C16.rule_key_order, rule_id="C06.canonical-form")
     ctx.do(C16.rule_escapes, rule_id="C06.canonical-form")
     ctx.do(C16.rule_number_constants, rule_id="C06.canonical-form")
+    # what is hashed is what was PARSED: a decoder hook (parse_float=Decimal) changes the values of untyped positions, and the
+    # hashing step turns a Decimal into its text -- the id of parsed text differs from the id of the equal dictionary
+    from .C01 import rule_decoder_plain
+    ctx.do(rule_decoder_plain, rule_id="C06.canonical-form")
     from .hidden_state import rule_no_hidden_state
     ctx.do(rule_no_hidden_state, "C06.history-independence")
     from .pitfalls import rule_loops_not_cut_short
